@@ -5,7 +5,10 @@ import corpus as corpus_mod
 
 VERIF = corpus_mod.VERIF
 REPO = corpus_mod.REPO
-CACHE = os.path.join(VERIF, '.cache')
+# facts cache: for /repo itself under /verif/.cache (size-capped, see gc_cache); for a scratch copy of the library (MSM_REPO set by the
+# self-tests) inside that copy, so that it disappears together with it
+CACHE = os.path.join(VERIF, '.cache') if os.path.realpath(REPO) == '/repo' else os.path.join(REPO, '.factscache')
+CACHE_CAP = 12 << 30
 TOOL = os.path.join(VERIF, 'tools', 'msm-facts')
 
 class AnalysisBroken(Exception):
@@ -48,6 +51,8 @@ def extract_one(tu):
     key = tu_key(tu)
     out = os.path.join(CACHE, key + '.json')
     if os.path.exists(out):
+        try: os.utime(out, None)
+        except OSError: pass
         return out, 0.0, True
     lock = open(os.path.join(CACHE, key + '.lock'), 'w')
     fcntl.flock(lock, fcntl.LOCK_EX)
@@ -68,16 +73,27 @@ def extract_one(tu):
         fcntl.flock(lock, fcntl.LOCK_UN)
         lock.close()
 
-def gc_cache(keep_hours=6):
-    """drop cache entries of older include trees"""
+def gc_cache(cap=None):
+    """keep the cache below the cap: least recently used entries (mtime, refreshed on every hit) go first"""
+    cap = CACHE_CAP if cap is None else cap
     if not os.path.isdir(CACHE):
         return
-    now = time.time()
+    ents = []
     for f in os.listdir(CACHE):
         p = os.path.join(CACHE, f)
         try:
-            if now - os.stat(p).st_atime > keep_hours * 3600:
-                os.unlink(p)
+            st = os.stat(p)
+            if f.endswith('.lock') or '.tmp' in f:
+                if time.time() - st.st_mtime > 3600: os.unlink(p)
+                continue
+            ents.append((st.st_mtime, st.st_size, p))
+        except OSError:
+            pass
+    total = sum(e[1] for e in ents)
+    for mt, sz, p in sorted(ents):
+        if total <= cap: break
+        try:
+            os.unlink(p); total -= sz
         except OSError:
             pass
 
